@@ -48,6 +48,7 @@ ROWS = [
  ("C18", "history/run-fails/write/FileNotFoundError", "fixed", "FI profile could not be cached when ORG or FID", "ofxget stmt for the bundled FI 'commencement' (ORG 'Cavion/Phoenix') - or any ORG/FID containing '/' - died with FileNotFoundError: the profile cache file name embedded ORG/FID verbatim (also C15: seq/valid-answer-rejected with a hostile ORG)"),
  ("C15", "wrong-server/different-org-fid", "fixed", "FI profile cache shared by different ORG/FID pairs", "ORG 'a-b'/FID 'c' and ORG 'a'/FID 'b-c' (same URL) shared one cache file: one FI's DTPROFUP and profile were used for the other"),
  ("C19", "all/inactive-account-requested", "fixed", "--all requested configured accounts", "stmt/stmtend --all with accounts of some type in ofxget.cfg and no ACTIVE account of that type in the ACCTINFO response requested the configured ones - incl. accounts the server had just reported as not ACTIVE (also all/account-extra-or-duplicated)"),
+ ("C10", "Integer/over-limit-accepted-on-read", "fixed", "negative integers with more digits", "Integer(n) accepted negative values with more than n digits (-1000000 at Integer(3)) on construction, reading and writing: enforce_length compared value >= 10**n (also C04 instance-exists-violating/integer-digits, integer-over-limit/kwargs/...=int)"),
  ("C06", "caller-string-entity-decoded", "known", None, "a user id / password / account id / ORG / FID... that the CALLER passes and that contains an OFX entity sequence (e.g. password 'a&lt;b' or account 'x&amp;y') is entity-decoded by String.convert() when the request model is built, so the request carries 'a<b' / 'x&y' instead of what was supplied. Not repaired: the decode-on-assignment is by design shared between parsed text and Python values; a repair needs ~20 call sites in Client.py or an API change"),
  ("C15", "wrong-server/same-org-fid-different-url", "fixed", "FI profile cached from one server", "cache keyed by ORG-FID only: client of another URL sent A's DTPROFUP and used A's profile"),
 ]
